@@ -536,6 +536,36 @@ def _constraint_evaluate(ctx, R, b):
         error_propagates(ctx, R + '/Constraint::evaluate/error-propagates', b, fe, 'function evaluation')
 
 
+def missing_is_error(ctx, rule, b, adt, field, users, what):
+    """ONE instance: with Option field adt.field unset the function cannot succeed.  Every successful return passes a call of `users` (which needs the
+    payload); every `as_ref()`-style opening of the field propagates its None as an error; on the None side of every Some/None test of the field
+    all paths end in an error."""
+    probs = []
+    if not users or not dominates_ok(ctx, b, {c.bb for c in users}): probs.append('a successful return does not use the payload')
+    for c in b.calls:
+        if c.item in ('as_ref', 'as_mut', 'clone', 'take') and c.args and fields_of_place_last(b, c.args[0]) == (adt, field) and b.locals[c.dst['l']].startswith('std::option::Option'):
+            res = T.errflow(b, c.dst['l'])
+            bad = [h for k, h in res if k == 'bad']
+            if bad and c.target >= 0:
+                arr, rets, complete = PathEval(ctx, b).explore(c.target, {c.dst['l']: ('d', 0, None)})
+                if complete and rets and all(result_kind(e) == 'err' for e in rets): bad = []
+                elif complete and not rets: bad = []            # `.expect(..)` / `.unwrap()`: a panic, not a success
+            probs += bad
+    for sb, some_t, none_t in option_field_tests(b, adt, field):
+        # only tests of the Option itself (the `?` after `.as_ref().context(..)` also has the field on its access path, but tests a ControlFlow)
+        dl = b.blocks[sb]['term']['d']['pl']['l']
+        tested = [d['rv']['pl'] for k, bb, d in b.defs_of(dl) if k == 'stmt' and d['rv']['k'] == 'discr']
+        if not tested or 'option::Option<' not in b.locals[tested[0]['l']] and not any(isinstance(x, dict) and x.get('f') == field for x in tested[0]['p']): continue
+        arr, rets, complete = PathEval(ctx, b).explore(none_t, {})
+        if not complete or any(result_kind(e) == 'ok' for e in rets): probs.append('the None side of a test of self.%s can succeed' % field)
+    ctx.check(not probs, rule, 'T-ERRFLOW', b.name, '%s: %s' % (what, '; '.join(sorted(set(probs)))), b.site())
+
+
+def fields_of_place_last(b, operand):
+    fs = T.access_path(b, operand)[0]
+    return fs[-1] if fs else None
+
+
 def _removed_evaluate(ctx, R, b):
     if True:
         ce = [c for c in b.calls if c.item == 'evaluate' and re.search(r'<v1::Constraint as evaluate::Evaluate>::evaluate', c.name)]
@@ -544,8 +574,9 @@ def _removed_evaluate(ctx, R, b):
             fs, root, calls = T.access_path(b, c.args[0])
             ctx.check((RC, 'constraint') in fs and T.access_path(b, c.args[1])[1] == 2, R + '/RemovedConstraint::evaluate/args', 'T-CARRY', b.name, 'not (self.constraint, state)', b.site(c.bb))
             error_propagates(ctx, R + '/RemovedConstraint::evaluate/error-propagates', b, [c], 'constraint evaluation')
-        opt = [c for c in b.calls if c.item == 'as_ref' and 'Option::<v1::Constraint>' in c.name]
-        error_propagates(ctx, R + '/RemovedConstraint::evaluate/missing-is-error', b, opt, 'missing constraint')
+        # a RemovedConstraint without its constraint is an error, however the Option is opened:
+        #   `.as_ref().context(..)?`  ==  `match &self.constraint { Some(c) => .., None => bail!(..) }`  ==  `let Some(c) = &self.constraint else { bail!(..) }`
+        missing_is_error(ctx, R + '/RemovedConstraint::evaluate/missing-is-error', b, RC, 'constraint', ce, 'missing constraint')
         # the returned EvaluatedConstraint: the two removal fields from self, every other field the wrapped constraint's evaluation;
         #   `out.f = x; Ok((out, ids))`  ==  `Ok((EvaluatedConstraint { f: x, ..out }, ids))`  ==  a literal naming every field
         sv = returned_struct(ctx, b, EC)
